@@ -58,18 +58,15 @@ func Float(v any, defaults ...float64) (f float64) {
 				}
 
 			case time.Time:
-				nano := tv.UnixNano()
-				sec := nano / int64(time.Second)
-				f = float64(sec) + float64(nano-sec*int64(time.Second))/float64(time.Second)
+				// Not UnixNano() which is only valid for the years 1678 to 2262.
+				f = float64(tv.Unix()) + float64(tv.Nanosecond())/float64(time.Second)
 
 			case gen.Int:
 				f = float64(tv)
 			case gen.String:
 				f = Float(string(tv), defaults...)
 			case gen.Time:
-				nano := time.Time(tv).UnixNano()
-				sec := nano / int64(time.Second)
-				f = float64(sec) + float64(nano-sec*int64(time.Second))/float64(time.Second)
+				f = float64(time.Time(tv).Unix()) + float64(time.Time(tv).Nanosecond())/float64(time.Second)
 
 			case gen.Big:
 				return Float(string(tv), defaults...)
